@@ -152,6 +152,7 @@ func (b *Builder) inst(blk *ir.Block, in *am.Inst) {
 		if in.AddrSpace != 0 {
 			x.AddrSpace = types.AddrSpace(in.AddrSpace)
 			x.Typ = nil // the address space is part of the result type
+			x.Type()
 		}
 		b.finish(in, x)
 	case "load":
